@@ -339,6 +339,9 @@ func (e *c11Env) checkInv(before, after c11Snap, what string) {
 		u := after.unaccounted(d)
 		if u.Sign() < 0 {
 			e.fail("C11/invariant/module-holds-less-than-recorded", fmt.Sprintf("after %s: module balance of %s = %s is %s below reserves+surplus", what, d, after.mod[d], new(big.Int).Neg(u)))
+		} else if _, ok := before.mod[d]; ok && what == "edit" && u.Cmp(before.unaccounted(d)) > 0 {
+			// an edit that drops a token leaves that token's coins on the module account outside every record: not a loss
+			e.r.Count("edit:orphaned-reserve")
 		} else if _, ok := before.mod[d]; ok && u.Cmp(before.unaccounted(d)) != 0 {
 			e.fail("C11/invariant/coins-not-recorded", fmt.Sprintf("after %s: module balance of %s minus (reserves+surplus) changed from %s to %s: coins held by the module are in no reserve and no surplus", what, d, before.unaccounted(d), u))
 		}
@@ -1021,6 +1024,10 @@ func (e *c11Env) genEdit(id uint64) {
 			nb.Tokens = append(nb.Tokens, baskettypes.BasketToken{Denom: d, Weight: e.randWeight(), Amount: sdk.NewInt(77), Deposits: true, Withdraws: true, Swaps: true})
 		} else if len(nb.Tokens) > 1 && nb.Tokens[len(nb.Tokens)-1].Amount.IsZero() {
 			nb.Tokens = nb.Tokens[:len(nb.Tokens)-1]
+		} else if len(nb.Tokens) > 1 {
+			// drop a FUNDED token: acceptable only while the remaining reserves still cover the supply at the weights
+			i := rng.Intn(len(nb.Tokens))
+			nb.Tokens = append(nb.Tokens[:i:i], nb.Tokens[i+1:]...)
 		}
 	case 6:
 		nb.MintsDisabled, nb.BurnsDisabled, nb.SwapsDisabled = rng.Intn(12) == 0, rng.Intn(12) == 0, rng.Intn(12) == 0
